@@ -2,11 +2,11 @@
    Proved here: the source is left unchanged, the result is a new document, and
    unification is the identity when no two records share kind and identifier, and the
    grouping half of the merge specification: one record per (kind, identifier) group and
-   every anonymous record, in first-occurrence order.  The attribute half (union per
-   group, conflict iff raise) is established by the correspondence run and the
-   independent merge oracle of this check (partial). *)
+   every anonymous record, in first-occurrence order; and the attribute half: a merged
+   record holds exactly the images of its group's attribute values.  "Conflict iff raise"
+   is established by the correspondence run and the independent merge oracle (partial). *)
 From Coq Require Import String List Arith ZArith.
-From Prov Require Import Str Sexp Tables Nsm Values Record World Interp InterpProofs UnifyProofs.
+From Prov Require Import Str Sexp Tables Nsm Values Record World Interp InterpProofs NsmProofs RecordProofs UnifyProofs IdemProofs ReaddProofs.
 Import ListNotations.
 Open Scope string_scope.
 
@@ -59,9 +59,27 @@ Theorem C08_grouping : forall ft b u, unified_records ft b = OK u ->
 Proof. exact unified_keys. Qed.
 Print Assumptions C08_grouping.
 
-(* still stated only: the attribute set of a merged record is the union of its group's (needs
-   idempotence of normalisation lifted from values, IdemProofs.v, to attribute dictionaries);
-   decided per run by the independent merge oracle of this check *)
+(* attributes: every record of the result is a record of the source as it was, or the merge of its group —
+   it holds the images (same Python kind, lexical form, language; names and datatypes keep their URI) of the
+   attribute values of the group's first record and of its other members and nothing else; a value is absent
+   only where it coincides, as an element of a Python set, with one that is kept.  Hypothesis: the source
+   records are in the stored form normalisation produces (good_rec; C05) *)
+Theorem C08_attributes : forall ft b u,
+  (forall r, In r (brecs b) -> good_rec ft r) ->
+  unified_records ft b = OK u ->
+  Forall2 (fun r o => o = r \/ merged_of r (tl (filter (same_group r) (brecs b))) o) (fst (first_fold (brecs b))) u.
+Proof. exact unified_attributes. Qed.
+Print Assumptions C08_attributes.
+Example C08_good_rec_example :
+  let exq l := mkQn (mkNs "ex" "http://e/") l in
+  let r0 := mkRec "Generation" (Some (exq "g"))
+              [(prov_qn "entity", [VQn (exq "e")]); (prov_qn "time", [VTime (mkDt 2012 3 31 9 21 0 0 None)]);
+               (exq "k", [VInt 5%Z; VQn (exq "v"); VLit "abc" (Some (xsd_qn "dateTime")) None])] in
+  forall p, In p (attributes r0) -> good_pair [] p.
+Proof. exact good_pairs_example. Qed.
+
+(* not proved: a conflict on a formal attribute raises ProvException iff two members disagree on it
+   (computed below on an example; decided per run by the merge oracle) *)
 
 (* merging computes: two entities and an agent on one identifier, an anonymous
    relation; the agent survives (repaired grouping), attribute sets are united *)
